@@ -1359,7 +1359,7 @@ def ecdh_sequence_search(ctx, full):
         ctx.nontrivial.add(("ecdh-seq-enum", pair, maxlen))
         # every sequence up to length 2 over the extended alphabet (second key pair, attribute assignment, secret
         # in the middle), then the re-use scenarios, then random longer sequences with random encodings
-        for ctor in (None, "A"):
+        for ctor in ((None, "A") if (full or pi == 0) else ()):
             for ln in (1, 2):
                 for syms in itertools.product(SEQ_SYMS_X, repeat=ln):
                     for form in ("obj", "attr"):
